@@ -75,6 +75,7 @@ type psPlan struct {
 	subs    [][]psSessPlan
 	auditor int // 0 none, 1 manual, 2 iterator
 	unit    time.Duration
+	inspect []int // stalls in front of Add(0) calls made by an inspector task during the run
 }
 
 type psRec struct {
@@ -151,6 +152,11 @@ func drawPSPlan(prof psProfile) *psPlan {
 			sess = append(sess, drawPSSession(prof, p.total))
 		}
 		p.subs = append(p.subs, sess)
+	}
+	if simrt.Chance(1, 3) {
+		for k := simrt.DrawRange(1, 4); k > 0; k-- {
+			p.inspect = append(p.inspect, simrt.DrawRange(0, 40))
+		}
 	}
 	return p
 }
@@ -566,6 +572,25 @@ func (r *psRun) run() bool {
 	for i := range r.plan.senders {
 		i := i
 		go r.senderTask(i)
+	}
+	// somebody looks at the subscriber count while membership changes: Add(0) must never panic and
+	// never report more subscriptions than were ever made, nor a negative number
+	if n := len(r.plan.inspect); n > 0 {
+		go func() {
+			defer r.guard("inspector (Add(0))")
+			for _, st := range r.plan.inspect {
+				simrt.Stall(st)
+				if r.stopping {
+					return
+				}
+				c := r.x.Add(0)
+				simrt.Probe("add0_during_churn")
+				if c < 0 || c > len(r.subs)+8 {
+					simrt.Failf(prop+".count", "Add(0) returned %d while only %d subscriptions had been made so far", c, len(r.subs))
+					return
+				}
+			}
+		}()
 	}
 	simrt.Quiesce(-1)
 	if simrt.Failed() {
